@@ -284,7 +284,9 @@ func c11Check(ctx *vfCtx, c c11Case) {
 				in = c11Shuffle(ch, conflicted)
 			}
 			var got []PDU
-			if vfCatch(ctx, "C11/v1/direct", func() { got = ResolveStateConflicts(append([]PDU(nil), in...), append([]PDU(nil), auth...), vfUserIDForSender) }) {
+			if vfCatch(ctx, "C11/v1/direct", func() {
+				got = ResolveStateConflicts(append([]PDU(nil), in...), append([]PDU(nil), auth...), vfUserIDForSender)
+			}) {
 				return
 			}
 			seen := map[string]bool{}
